@@ -37,6 +37,8 @@ COMPONENTS = {
 }
 PROBES = ["sync-restart", "pdo-restart", "pdo-update-in-place", "pdo-update-restart", "hb-1017-sdo", "hb-1017-local", "hb-state-by-command",
           "hb-state-by-assignment", "guard-restart", "disconnect", "disconnect-noncancelling-backend", "flavour-fixed", "flavour-modifiable-copy", "flavour-by-reference"]
+# probes that mark an injected disturbance; the runner also counts them as fired faults in the evidence
+FAULT_PROBES = {'disconnect-noncancelling-backend': 'backend-leaves-tasks-on-shutdown'}
 
 FLAVOURS = ("by-reference", "modifiable-copy", "fixed-copy")
 CALLS = {
